@@ -31,7 +31,7 @@ def literal_param_used(events):
 
 
 def classify(kind, rec, mir):
-    if gc.rewraps(rec["events"]):
+    if gc.rewraps(rec["events"], rec.get("real")):
         return "NoRewrap"
     if literal_param_used(rec["events"]):
         return "NoLiteralParamFold"
